@@ -6,10 +6,16 @@ import ArgMapper.Model.Redefine
 namespace ArgMapper.Driver
 open ArgMapper
 
-def parseFilter (s : String) : Option Filter :=
+/-- the filter as the harness assembles it — nest 0: `FilterOr(types…)`; 1: `FilterAnd(FilterOr(types…),
+FilterOr(types…))`; 2: `FilterOr(FilterAnd(t), …)` -/
+def parseFilter (s : String) (nest : Nat := 0) : Option Filter :=
   if s = "none" then none
-  else if s = "empty" then some (.or [])
-  else some (.or ((s.splitOn ",").map (fun t => Filter.ty (natOf t))))
+  else
+    let tys : List Filter := if s = "empty" then [] else (s.splitOn ",").map (fun t => Filter.ty (natOf t))
+    match nest with
+    | 1 => some (.and [.or tys, .or tys])
+    | 2 => some (.or (tys.map (fun t => Filter.and [t])))
+    | _ => some (.or tys)
 
 def showRedef (o : RedefOutcome) : String :=
   match o with
@@ -44,7 +50,7 @@ def runRedef (fl : Flags) (b : Block) : Res :=
   | _, _, .nilArg => { conform := some "builder_nilarg", propNA := true }
   | _, _, .optErr _ => { conform := some "builder_opterr", propNA := true }
   | none, some target, .ok bld0 =>
-  let fin := parseFilter ((kv b.head "fin").getD "none")
+  let fin := parseFilter ((kv b.head "fin").getD "none") (natOf ((kv b.head "finnest").getD "0"))
   let fout := parseFilter ((kv b.head "fout").getD "none")
   -- converter generators run while the Redefine graph is built, after the output filter was checked
   let snap := genVerts (preGenGraph bld0 sc.fn target)
